@@ -11,7 +11,7 @@
    px zero IM i j is IM[i][j].  Origins are integers (Z) or rationals (Q). *)
 From Coq Require Import List Arith Bool ZArith QArith Qround Qabs Reals Lia.
 From PA Require Import base.Arr base.Px model.Center proofs.CenterAxis proofs.CenterProofs
-  proofs.CenterCor proofs.CenterPrep proofs.CenterImage proofs.CenterTop proofs.OriginSums proofs.CenterLin gen.CenterGen proofs.CenterGenEq.
+  proofs.CenterCor proofs.CenterPrep proofs.CenterImage proofs.CenterTop proofs.OriginSums proofs.CenterLin gen.CenterGen proofs.CenterGenEq gen.CenterPrepGen proofs.CenterPrepGenEq.
 Import ListNotations.
 Local Open Scope nat_scope.
 
@@ -259,6 +259,19 @@ Theorem C12_trim_model_is_source :
   ci_trim_gen A odd_size square IM = ci_trim odd_size square IM.
 Proof. exact ci_trim_gen_eq. Qed.
 Print Assumptions C12_trim_model_is_source.
+
+(* The origin preprocessing prep_axis of the model is what the current source
+   does to one origin component (the else-branch of `for a in [0, 1]:` in
+   set_center: negative wrap, int() / int(round()) split, complement from the
+   other edge), regenerated by tools/translate/center_prep_src.py on every run;
+   the statements around it (axes as a set, None / not-selected test,
+   `np.all(subpixel == 0)` reset) are pinned by the translator. *)
+Theorem C12_prep_model_is_source :
+  forall (n order : nat) (o : Q),
+  prep_axis_gen n order o =
+  (fst (prep_axis n order o), snd (prep_axis n order o), (Z.of_nat n - 1 - fst (prep_axis n order o))%Z).
+Proof. exact prep_axis_gen_eq. Qed.
+Print Assumptions C12_prep_model_is_source.
 
 Theorem C12_trim_shape :
   forall (A : Type) (odd_size square : bool) (n m : nat) (IM : list (list A)),
